@@ -437,7 +437,7 @@ ServerWrite(env) ==
                 /\ G("wire", RespHdrConst(env, x))
                 /\ G("wire", env.t = 1)
                 /\ StatusMatches(env, h)
-                /\ x.rc = OK => G("wire", env.b = 1) /\ G("pay", env.pay = x.rpay)
+                /\ x.rc = OK => G("wire", env.b = 1) /\ (env.b = 1 => G("pay", env.pay = x.rpay))
                 /\ G("md", MdF(env.md) = x.hdr /\ MdF(env.tmd) = x.trl)
                 /\ hnds' = [hnds EXCEPT ![h].trW = TRUE]
            /\ cand = {} => UNCHANGED hnds
